@@ -46,6 +46,19 @@ def configs(tier, seed, prefix="index"):
                         Td = 9 if q == 0 else 11  # reaches the refresh of round 8 with cells last pulled before round 4
                     name = "%s-%s-%s-d%d-T%d-g%d" % (prefix, algo, part, d, Td, gi)
                     out.append({"name": name, "algo": algo, "part": part, "d": d, "T": Td, "params": g, "cost": Td * d * arity(part, d) * (5 if algo == "VHCT" else 1)})
+    # Mode B: concrete box and concrete objective-like prefix of P rounds, then k symbolic rounds
+    for algo, Ps in (("T_HOO", (15, 31, 60)), ("HCT", (7, 15, 16, 31, 63, 127)), ("VHCT", (7, 15, 31))):
+        for P in Ps:
+            for part in ("B", "K3", "RB"):
+                for sd, extra in ((0, {}), (1, {"negative": True, "noise": 0.6}), (2, {"noise": 1.0}), (3, {"noise": 0.05})):
+                    if part != "B" and (sd in (1, 3) or P > 31):
+                        continue
+                    k = 3 if q == 0 else 4
+                    if algo == "VHCT":
+                        k = 1 if q == 0 else 2
+                    pre = dict({"P": P, "k": k, "seed": sd, "peak": (0.3, 0.8, 0.55, 0.1)[sd], "noise": 0.25}, **extra)
+                    out.append({"name": "%s-%s-%s-d1-P%d+%d-s%d" % (prefix, algo, part, P, k, sd), "algo": algo, "part": part, "d": 1, "T": P + k,
+                                "params": GRID[algo][1] if (algo == "HCT" and sd in (1, 2)) else {}, "prefix": pre, "cost": P * 4 * (5 if algo == "VHCT" else 1)})
     out.append({"name": "twin-" + prefix, "algo": "HCT", "part": "B", "d": 1, "T": 3, "params": {}, "twin": True, "expect_fail": "twin"})
     return out
 
